@@ -57,3 +57,53 @@ Print Assumptions C02_track_decodes.
 Print Assumptions C02_abs_ticks.
 Print Assumptions C02_normalize.
 Print Assumptions C02_stable_sort_unique.
+
+(* ------------------------------------------------------------------------------------------------ *)
+(* "... and all sources that give rise to them": the whole pipeline model Compile.compile
+   (lex -> exec -> flush of ties -> play-from -> split_note_off -> stable sort -> writer).
+   For EVERY source for which the model returns a value (Unsupported / Panic / OutOfFuel are what `= Ok`
+   excludes; no other hypothesis on the source) every event the runner stored is one C02_track_decodes
+   covers, the bytes parse as one chunk per track of the final song, and every chunk whose delta times fit
+   the SMF range (below 2^28) decodes to exactly the wire form of that track's normalized, sorted event list,
+   End-of-Track once and last.  Size hypotheses: the track count (at most 1000, TR admits 0..999) and the
+   time base (48..32767, clamped by the lexer) are PROVED; what remains is that the file is shorter than
+   2^32 bytes, so that every chunk length fits its field. *)
+From Coq Require Import String.
+From Sakura.Model Require Import Song Token LexCore RunCore Tie Compile.
+From Sakura.Proofs Require Import PipelineP.
+
+Theorem C02_compile_decodes : forall (src bytes log : list Z),
+  compile src = Ok (bytes, log) -> zlen bytes < 2 ^ 32 ->
+  exists (s : song) (bodies : list (list Z)),
+    run_source src = Ok s /\ events_wf s /\
+    parse_file bytes = Some (mkHeader 1 (zlen (s_tracks s)) (s_timebase s), bodies) /\
+    List.length bodies = List.length (s_tracks s) /\
+    forall (i : nat) (evs : list event) (body : list Z),
+      nth_error (tracks_for_writer s) i = Some evs -> nth_error bodies i = Some body ->
+      deltas_ok (wire 0 (normalize_and_sort evs)) = true ->
+      decode_track body = Some (wire 0 (normalize_and_sort evs) ++ [EOTmsg]).
+Proof. exact compile_decodes. Qed.
+
+(* the invariant behind it, for every source: everything the runner leaves in the song - track events,
+   pending chord notes, pending tied notes - is an event the decoding theorem covers *)
+Theorem C02_events_wf_from_source : forall (src : list Z) (s : song), run_source src = Ok s -> events_wf s.
+Proof. exact run_source_wf. Qed.
+
+(* non-vacuity: four tracks (track 0 empty), a chord, a tie with a glissando, a tempo, a time signature,
+   a program change, a loop and a Slur(1) bend; all hypotheses hold and the chord is on the wire *)
+Definition ex_src : list Z :=
+  zs "TR(1) Tempo(140) TimeSignature(3,4) l4 'ceg'2 c&d e TR(2) CH(2) @(5) o4 [2 c8 d8] TR(3) Slur(1) g2&a2"%string.
+Example C02_compile_example :
+  match compile ex_src, run_source ex_src with
+  | Ok (bytes, _), Ok s =>
+      (zlen bytes <? 2 ^ 32) = true /\ List.length (s_tracks s) = 4%nat /\
+      forallb (fun evs => deltas_ok (wire 0 (normalize_and_sort evs))) (tracks_for_writer s) = true /\
+      firstn 6 (wire 0 (normalize_and_sort (nth 1 (tracks_for_writer s) []))) =
+        [(0, MMeta 81 [6; 138; 27]); (0, MMeta 88 [3; 2; 24; 8]);
+         (0, MNoteOn 0 67 100); (0, MNoteOn 0 64 100); (0, MNoteOn 0 60 100); (172, MNoteOff 0 67 100)]
+  | _, _ => False
+  end.
+Proof. vm_compute. repeat split. Qed.
+
+Print Assumptions C02_compile_decodes.
+Print Assumptions C02_events_wf_from_source.
